@@ -25,7 +25,8 @@ from props import base
 
 PROP = "C14"
 PROPS_V = "theories/Props/C14.v"
-THEOREMS = ["C14_show_eq_query_core", "C14_stored_below_mark", "C14_show_idempotent", "C14_remember_dup_rejected",
+THEOREMS = ["C14_show_eq_query_reach", "C14_show_eq_query_core", "C14_stored_below_mark", "C14_monotone_clock_suffices",
+            "C14_refuted_EventNotAboveMark_component_max", "C14_show_idempotent", "C14_remember_dup_rejected",
             "C14_remember_fresh_accepted", "C14_show_eq_query_refuted", "C14_refuted_MarkOfLastFrame",
             "C14_refuted_PayloadTimeField_dup", "C14_refuted_PayloadTimeField_lost", "C14_refuted_PayloadTimeField_hidden",
             "C14_refuted_EventNotAboveMark", "C14_refuted_LimitNotReapplied", "C14_refuted_RawStreamDuplicates",
